@@ -76,7 +76,7 @@ func run(c *props.Ctx) {
 	c.R.Floor("REC-1", 14)
 	c.R.Floor("LAY-5", 2)
 	c.R.Floor("NAME-1", 5)
-	c.R.Floor("SENT-1", 15)
+	c.R.Floor("SENT-1", 19)
 	c.R.Floor("LINE-1", 2)
 	c.R.Floor("BYTES-1", 1)
 	c.R.Floor("TOKSEP-1", 4)
